@@ -1,5 +1,5 @@
 //@ unit link_ops
-//@ serves C09 C16
+//@ serves C09 C16 C13
 //@ must_verify FileBuilder::link_ops FileBuilder::build Environment::reset_out_locks Environment::reset_out_lock_for_path Error::with_pos lemma_reachable_closed lemma_import_is_reachable lemma_pending_push lemma_pending_pop lemma_logged_push lemma_found_one_more lemma_linked_set_is_the_reachable_set
 //@ include prelude/head.rs
 use std::rc::Rc;
